@@ -731,7 +731,7 @@ func exec(t *testing.T, ci sim.CaseI, choices []uint32, keepLog bool) *sim.Outco
 	c := ci.(*Case)
 	u, err := buildUniverse(c)
 	if err != nil {
-		panic(fmt.Sprintf("harness: cannot build universe: %v", err))
+		sim.Trouble("cannot build universe: %v", err)
 	}
 	runCounter++
 	dir := filepath.Join(scratchRoot, fmt.Sprintf("run%d", runCounter))
